@@ -3,6 +3,7 @@
 From Coq Require Import List Bool Arith ZArith NArith Lia.
 From XD Require Import lib.ListAux lib.Toposort model.Manager model.ManagerData
   proofs.ManagerIdx proofs.ManagerInv proofs.ManagerTrace proofs.ManagerDataInv proofs.Store proofs.ManagerC01 proofs.ManagerOrder proofs.ManagerExtra.
+From XD Require Import model.TasksSem model.TasksSemData gen.GenTasks gen.GenTasksData proofs.TasksSrc proofs.TasksSrcData.
 Import ListNotations.
 Local Open Scope nat_scope.
 
@@ -165,6 +166,23 @@ Proof.
     intros u w [<-|[]] [<-|[]] Hne. exfalso; apply Hne; reflexivity.
 Qed.
 
+(* ---- tie to the source: gen/GenTasksData.v is regenerated from xdeps/tasks.py on every run; the translated
+   Manager.set_value (with the translated register / unregister / find_tasks / run_tasks and the run methods of
+   the three task classes under it) IS the model's set_value: same manager, same containers, same tasks run,
+   same exception, for every manager, store, target, value and pair of set orders *)
+Theorem C01_set_value_is_source : forall (m : dmgr) s r v sd so,
+  src_set_value task_run r v sd so (m, s, []) =
+  let '(m', s', out) := set_value m s r v sd so in ((m', s', o_trace out), res_of (o_err out)).
+Proof. exact src_set_value_eq. Qed.
+
+Theorem C01_task_run_is_source : forall (t : dtask) (m : dmgr) s tr,
+  task_run t (m, s, tr) = let '(s', er) := exec t s in ((m, s', tr), res_of er).
+Proof. exact task_run_eq. Qed.
+
+Theorem C01_exprtask_init_is_source : forall r e dord tord,
+  src_exprtask_init r e dord tord = mk_expr_task r e dord tord.
+Proof. exact src_exprtask_init_eq. Qed.
+
 Print Assumptions C01_step_partial.
 Print Assumptions C01_history_partial.
 Print Assumptions C01_run_order.
@@ -172,3 +190,6 @@ Print Assumptions C01_linear_knob.
 Print Assumptions C01_order_independent_partial.
 Print Assumptions C01_refuted_nested_siblings.
 Print Assumptions C01_nonvacuous.
+Print Assumptions C01_set_value_is_source.
+Print Assumptions C01_task_run_is_source.
+Print Assumptions C01_exprtask_init_is_source.
